@@ -1,5 +1,4 @@
-import PepperProofs.ConstraintGenLoad
-import PepperProofs.ConstraintGenSimT
+import PepperProofs.ConstraintGenComp
 /-!
 # C04 — designer constraint arrays are the exact closure of the specification
 
@@ -40,8 +39,7 @@ theorem arrays_exact_graph {tbl : CodeTable} (hl : tbl.lawful = true) {mode : La
     * the position `eq[i]` carries a nucleotide the design forces *equal* to `m`,
     * the position `wc[i]` (if any) carries a nucleotide the design forces *complementary* to `m`,
     * `st[i]` allows every base that all templates linked to `m` in the design allow (complemented at odd parity).
-    So the arrays never claim more than the link closure of the specification.  (The converse inclusions are the
-    completeness half, see `arrays_exact_statement`.) -/
+    So the arrays never claim more than the link closure of the specification.  (The converse inclusions: `arrays_exact`.) -/
 theorem arrays_sound {mode : Layout} {stmts : List Stmt} {spec : Spec}
     (hload : Pil.load Generated.nupackTable stmts {} = .ok spec)
     {s : Seeds} {c : Cons} (hs : seeds mode spec = .ok s) (hb : build s = .ok c)
@@ -141,20 +139,63 @@ theorem layout_exact_strand {stmts : List Stmt} {spec : Spec}
     rw [G.len_st, hst _ klast]
     exact G.last
 
-/-- The full statement of the property for the model: for every accepted document and both layouts, the returned
-    arrays are exactly `LinkSpec.specArrays` — the arrays computed naively from the semantic link graph and the
-    line of nucleotides the layout describes (`eq[i] = eq[j]` iff forced equal, `wc[i]` = lowest position forced
-    complementary or none, `eq[i]` = lowest of its class, `st[i]` = intersection of all linked templates,
-    `lineOf` = strands with their blank separators).  Proved so far: `arrays_exact_graph` + `arrays_sound` +
-    `layout_exact_strand`; the remaining half (completeness of the seeding, layout of the structure mode) is validated on every
-    sampled document by the correspondence (`pil-constraints` vs the real arrays, `pil-spec-arrays` vs the
-    independent oracle). -/
-def arrays_exact_statement : Prop :=
+/-- **C04: the arrays are the exact closure of the specification (both layouts).**  For a document accepted by
+    the reader and arrays returned by `get_constraints`, at every non-blank index `i` (template `ch`), with `m` the
+    nucleotide that sits at `i` (`denOf`):
+    * `eq[i]` is the lowest non-blank index whose nucleotide the design forces *equal* to `m` (`SemMin … false`);
+    * `wc[i]` is the lowest non-blank index whose nucleotide the design forces *complementary* to `m`, and `None`
+      exactly when there is no such index (`SemMin … true`);
+    * the bases of `st[i]` are exactly the bases allowed by every template linked to `m` in the design, complemented
+      at odd parity (the intersection, complemented where the orientation is);
+    and the three arrays have one length, blank in all three at the same indices.
+    "Forces" is parity reachability in the link graph of `Pil.denote spec` (`NucReach`/`ParityReach`).
+    Hypotheses `hs`/`hb`: the seeding raised nothing (see `C15.error_iff_unsat` for what that excludes). -/
+theorem arrays_exact {mode : Layout} {stmts : List Stmt} {spec : Spec}
+    (hload : Pil.load Generated.nupackTable stmts {} = .ok spec)
+    {s : Seeds} {c : Cons} (hs : seeds mode spec = .ok s) (hb : build s = .ok c)
+    {a : Arrays} (ha : getConstraints mode spec = .ok a) :
+    a.2.1.length = a.1.length ∧ a.2.2.length = a.1.length ∧
+    (∀ i, a.2.2[i]? = some none → a.1[i]? = some none ∧ a.2.1[i]? = some none) ∧
+    ∀ i ch, a.2.2[i]? = some (some ch) →
+      ∃ m v w, denOf mode spec i = some m ∧ a.1[i]? = some v ∧ a.2.1[i]? = some w ∧
+        SemMin mode spec a m false v ∧ SemMin mode spec a m true w ∧
+        (∀ b, hasB (Generated.pilTable.maskC ch) b ↔
+          ∀ u q, ParityReach (Pil.denote spec) m.var q u →
+            okVar Generated.pilTable (Pil.denote spec) u (flipB (flipB b m.comp) q)) := by
+  have S : Seeded Generated.pilTable mode spec s c := ⟨load_wf hload, load_specCodes hload, hs, hb⟩
+  have G := arrays_exact_graph pilLawful S.ok hs hb ha
+  refine ⟨G.len_wc, G.len_st, ?_, fun i ch hi => arrays_exact_aux S pil_N.2 G hi⟩
+  intro i hi
+  have hlt : i < a.1.length := by rw [← G.len_st]; exact (List.getElem?_eq_some_iff.1 hi).1
+  have hk : i ∉ c.keys := by
+    intro hk
+    obtain ⟨_, _, ch, hch, _⟩ := G.key i hlt hk
+    rw [hch] at hi; cases hi
+  exact ⟨(G.blank i hlt hk).1, (G.blank i hlt hk).2.1⟩
+
+/-- **Same representative ⟺ forced equal**: two non-blank indices receive the same entry of `eq` exactly when the
+    specification forces their nucleotides equal. -/
+theorem eq_iff_forced_equal {mode : Layout} {stmts : List Stmt} {spec : Spec}
+    (hload : Pil.load Generated.nupackTable stmts {} = .ok spec)
+    {s : Seeds} {c : Cons} (hs : seeds mode spec = .ok s) (hb : build s = .ok c)
+    {a : Arrays} (ha : getConstraints mode spec = .ok a)
+    {i j : Nat} {ci cj : Char} (hi : a.2.2[i]? = some (some ci)) (hj : a.2.2[j]? = some (some cj))
+    {m n : Nuc} (hm : denOf mode spec i = some m) (hn : denOf mode spec j = some n) :
+    a.1[i]? = a.1[j]? ↔ NucReach (Pil.denote spec) m false n := by
+  have S : Seeded Generated.pilTable mode spec s c := ⟨load_wf hload, load_specCodes hload, hs, hb⟩
+  exact ConstraintGen.eq_iff_forced_equal S pil_N.2 (arrays_exact_graph pilLawful S.ok hs hb ha) hi hj hm hn
+
+/-- What is not a theorem: that the returned arrays coincide with the output of the *executable* naive procedure
+    `LinkSpec.specArrays` (saturation over the semantic link graph + `lineOf`, the line of nucleotides with blank
+    separators).  Missing for that: correctness of the saturation procedure `classOf` with respect to `ParityReach`,
+    the closed form of the structure layout (`layout_exact` is proved for the strand layout), and that the seeding
+    never fails on accepted documents.  The equality itself is checked on every sampled small document
+    (`pil-spec-arrays` = the independent Python oracle = the real arrays). -/
+def arrays_eq_specArrays_statement : Prop :=
   ∀ (stmts : List Stmt) (spec : Spec) (mode : Layout) (a : Arrays),
     Pil.load Generated.nupackTable stmts {} = .ok spec →
     getConstraints mode spec = .ok a →
     a = specArrays Generated.pilTable (mode == .struct) (Pil.denote spec)
-
 
 /-! ### non-vacuity: concrete small documents -/
 
